@@ -10,6 +10,11 @@
     contig list and integer rank with one, positions `None`/integer).  All order laws are proved
     for every key satisfying the invariant (`…_inv`), and specialised to `GoodKey`s.
 
+  Errors of the key function (section a): `KeyError` exactly for the records that cannot be keyed
+  (a coordinate column is missing, or a position is a text `int()` cannot read:
+  `mkKey_keyError_iff`), `ValueError` exactly for a chromosome missing from a non-empty contig
+  list (`contig_missing_iff`, no hypothesis on the positions), nothing else (`mkKey_all_cases`).
+
   None of the statements needs `o.sortable`: they hold for every order `o` (an order without
   barcodes builds coordinate keys), which is stronger than what was asked.
 -/
@@ -32,7 +37,8 @@ theorem mkKey_value (o : Order) (cs : List Text) (l : Loc) (hwf : l.WF)
   mkKey_eq_ok hwf hc
 
 /-- a. with a contig list that does not contain the chromosome (or no chromosome at all), keying
-    raises `ValueError`; only the coordinate columns have to be present for this -/
+    raises `ValueError`; only the coordinate columns have to be present for this (the positions
+    are read after the contig lookup, and a bad position is no `ValueError` anyway) -/
 theorem contig_missing_of_hasCoords (o : Order) (cs : List Text) (l : Loc)
     (h0 : l.hasCoords = true) (hne : cs ≠ []) (h : ∀ s, l.chrName = some s → s ∉ cs) :
     mkKey o cs l = .error .value :=
@@ -42,6 +48,19 @@ theorem contig_missing (o : Order) (cs : List Text) (l : Loc) (hwf : l.WF)
     (hne : cs ≠ []) (h : ∀ s, l.chrName = some s → s ∉ cs) :
     mkKey o cs l = .error .value :=
   mkKey_eq_error hwf.1 hne h
+
+/-- a. ... and that is the ONLY `ValueError` of the key function: for every record (well-formed or
+    not, whatever its positions are), `mkKey` raises `ValueError` if and only if the record has its
+    coordinate columns and a non-empty contig list does not contain its chromosome name -/
+theorem contig_missing_iff (o : Order) (cs : List Text) (l : Loc) :
+    mkKey o cs l = .error .value ↔
+      l.hasCoords = true ∧ cs ≠ [] ∧ ∀ s, l.chrName = some s → s ∉ cs :=
+  mkKey_valueError_iff
+
+/-- a. without a contig list the key function never raises `ValueError` -/
+theorem no_valueError_without_contigs (o : Order) (l : Loc) : mkKey o [] l ≠ .error .value := by
+  intro h
+  exact ((contig_missing_iff o [] l).1 h).2.1 rfl
 
 /-- a. the two cases are exhaustive: on a well-formed record `mkKey` either succeeds or raises
     `ValueError` for a chromosome missing from the contig list — nothing else
@@ -53,48 +72,67 @@ theorem mkKey_wf_cases (o : Order) (cs : List Text) (l : Loc) (hwf : l.WF) :
   · exact .inl (mkKey_eq_ok hwf hc)
   · exact .inr ⟨hne, hm, mkKey_eq_error hwf.1 hne hm⟩
 
-/-- `KeyError` is raised exactly by records without coordinate columns -/
-theorem mkKey_keyError_iff (o : Order) (cs : List Text) (l : Loc) :
-    mkKey o cs l = .error .key ↔ l.hasCoords = false := by
-  constructor
-  · intro h
-    cases h0 : l.hasCoords with
-    | false => rfl
-    | true =>
-      rw [mkKey_unfold h0] at h
-      cases hc : chrStep cs (chrText l.chr) with
-      | error e =>
-        have : e = .value := by
-          unfold chrStep at hc; split at hc
-          · cases hc
-          · split at hc
-            · split at hc <;> cases hc; rfl
-            · cases hc; rfl
-        subst this; rw [hc] at h; cases h
-      | ok c =>
-        rw [hc] at h
-        cases hs : posInt l.start with
-        | error e =>
-          have : e = .value := by
-            unfold posInt at hs; split at hs
-            · split at hs <;> cases hs; rfl
-            · cases hs
-          subst this; rw [hs] at h; cases h
-        | ok s =>
-          rw [hs] at h
-          cases he : posInt l.stop with
-          | error e =>
-            have : e = .value := by
-              unfold posInt at he; split at he
-              · split at he <;> cases he; rfl
-              · cases he
-            subst this; rw [he] at h; cases h
-          | ok e => rw [he] at h; cases o <;> cases h
-  · exact mkKey_no_coords
+/-- a. the complete case analysis for EVERY record, in the evaluation order of
+    `_CoordinateKey.__init__`: no coordinates → `KeyError`; chromosome not in the contig list →
+    `ValueError`; a position text that is not a number → `KeyError`; otherwise the key `Loc.key` -/
+theorem mkKey_all_cases (o : Order) (cs : List Text) (l : Loc) :
+    (l.hasCoords = false ∧ mkKey o cs l = .error .key) ∨
+    (l.hasCoords = true ∧ cs ≠ [] ∧ (∀ s, l.chrName = some s → s ∉ cs) ∧
+      mkKey o cs l = .error .value) ∨
+    (l.hasCoords = true ∧ l.chrOk cs ∧ (l.start.posOk = false ∨ l.stop.posOk = false) ∧
+      mkKey o cs l = .error .key) ∨
+    (l.hasCoords = true ∧ l.chrOk cs ∧ l.start.posOk = true ∧ l.stop.posOk = true ∧
+      mkKey o cs l = .ok (l.key o cs)) :=
+  mkKey_cases o cs l
 
-/-- a text position that `int()` rejects is a `ValueError` (why `WF` asks for readable positions) -/
-theorem posInt_bad_text (s : Text) (h : pyInt s = none) : posInt (.str s) = .error .value := by
+/-- `KeyError` is raised exactly by the records that cannot be keyed: a coordinate column is
+    missing, or — the chromosome being keyable (no contig list, or the name is in it) — a position
+    is a text that `int()` cannot read -/
+theorem mkKey_keyError_iff (o : Order) (cs : List Text) (l : Loc) :
+    mkKey o cs l = .error .key ↔
+      l.hasCoords = false ∨
+        ((cs = [] ∨ ∃ s, l.chrName = some s ∧ s ∈ cs) ∧
+          (l.start.posOk = false ∨ l.stop.posOk = false)) :=
+  Model.mkKey_keyError_iff
+
+/-- the key function raises nothing but `KeyError` and `ValueError` -/
+theorem mkKey_error_kinds (o : Order) (cs : List Text) (l : Loc) (e : PyErr)
+    (h : mkKey o cs l = .error e) : e = .key ∨ e = .value :=
+  mkKey_error_kind h
+
+/-- `mkKey` succeeds exactly on the records with coordinate columns, a keyable chromosome and
+    readable positions (the barcodes are copied, never read) -/
+theorem mkKey_succeeds_iff (o : Order) (cs : List Text) (l : Loc) (k : Key) :
+    mkKey o cs l = .ok k ↔
+      l.hasCoords = true ∧ (cs = [] ∨ ∃ s, l.chrName = some s ∧ s ∈ cs) ∧
+        l.start.posOk = true ∧ l.stop.posOk = true ∧ k = l.key o cs :=
+  Model.mkKey_ok_iff'
+
+/-- a text position that `int()` rejects makes the record un-keyable: `KeyError`, like a missing
+    coordinate column (why `WF` asks for readable positions) -/
+theorem posInt_bad_text (s : Text) (h : pyInt s = none) : posInt (.str s) = .error .key := by
   simp [posInt, h]
+
+/-- `posInt` raises nothing but that `KeyError` -/
+theorem posInt_error_iff (v : KV) (e : PyErr) :
+    posInt v = .error e ↔ (∃ s, v = .str s ∧ pyInt s = none) ∧ e = .key := by
+  rw [Model.posInt_error_iff]
+  constructor
+  · rintro ⟨h, rfl⟩
+    refine ⟨?_, rfl⟩
+    cases v with
+    | str s => exact ⟨s, rfl, by simpa [KV.posOk] using h⟩
+    | none => simp [KV.posOk] at h
+    | int i => simp [KV.posOk] at h
+  · rintro ⟨⟨s, rfl, hs⟩, rfl⟩
+    exact ⟨by simp [KV.posOk, hs], rfl⟩
+
+/-- a record whose start (or end) is a non-numeric text is a `KeyError` when its chromosome can be
+    keyed ... -/
+theorem bad_position_keyError (o : Order) (cs : List Text) (l : Loc) (h0 : l.hasCoords = true)
+    (hc : cs = [] ∨ ∃ s, l.chrName = some s ∧ s ∈ cs)
+    (hp : l.start.posOk = false ∨ l.stop.posOk = false) : mkKey o cs l = .error .key :=
+  mkKey_bad_position h0 hc hp
 
 example : ∃ k, mkKey .barcodesAndCoordinate ["chr1".toList, "chr2".toList]
     { tumor := .str "T".toList, chr := .str "chr2".toList, start := .int 5, stop := .int 9 }
@@ -104,6 +142,17 @@ example : ∃ k, mkKey .barcodesAndCoordinate ["chr1".toList, "chr2".toList]
 example : mkKey .coordinate ["chr1".toList] { chr := .str "chrX".toList, start := .int 5, stop := .int 9 }
     = .error .value :=
   contig_missing _ _ _ (by decide) (by decide) (by intro s hs; cases hs; decide)
+
+/-- non-vacuity of `bad_position_keyError`: the start `"abc"` is not a number -/
+example : mkKey .coordinate ["chr1".toList]
+    { chr := .str "chr1".toList, start := .str "abc".toList, stop := .int 9 } = .error .key :=
+  bad_position_keyError _ _ _ rfl (.inr ⟨"chr1".toList, by decide, by decide⟩) (.inl (by decide))
+
+/-- ... but the contig lookup comes first: the same bad position on a chromosome the contig list
+    does not have is the `ValueError` (`contig_missing_iff` has no position hypothesis) -/
+example : mkKey .coordinate ["chr1".toList]
+    { chr := .str "chrX".toList, start := .str "abc".toList, stop := .int 9 } = .error .value :=
+  (contig_missing_iff _ _ _).2 ⟨rfl, by decide, by intro s hs; cases hs; decide⟩
 
 /-! ## keys of well-formed records -/
 
